@@ -760,18 +760,24 @@ func c17Tags(c *Ctx, p *Prog, m *Model) {
 		return
 	}
 	widths := map[int64]bool{}
+	next := int64(0) // array literal: positional elements count from the last key
 	for _, el := range cl.Elts {
-		kv, ok := el.(*ast.KeyValueExpr)
-		if !ok {
-			continue
+		var n int64
+		var val ast.Expr
+		if kv, ok := el.(*ast.KeyValueExpr); ok {
+			kvv := pk.TypesInfo.Types[kv.Key].Value
+			n, _ = constant.Int64Val(kvv)
+			val = kv.Value
+		} else {
+			n, val = next, el
 		}
-		kvv := pk.TypesInfo.Types[kv.Key].Value
-		n, _ := constant.Int64Val(kvv)
+		next = n + 1
 		widths[n] = true
-		inner, ok := kv.Value.(*ast.CompositeLit)
+		inner, ok := val.(*ast.CompositeLit)
 		if !ok {
 			continue
 		}
+		kv := el
 		var bad []string
 		cnt := 0
 		for _, ie := range inner.Elts {
